@@ -159,7 +159,7 @@ func flatFields(s *types.Struct, depth int) []*types.Var {
 	var out []*types.Var
 	for i := 0; i < s.NumFields(); i++ {
 		f := s.Field(i)
-		if es, ok := f.Type().Underlying().(*types.Struct); ok && f.Embedded() && depth < 3 {
+		if es, ok := f.Type().Underlying().(*types.Struct); ok && ssax.Grouping(f) && depth < 3 {
 			out = append(out, flatFields(es, depth+1)...)
 			continue
 		}
@@ -228,8 +228,8 @@ func fieldOfStruct(n *types.Named, f *types.Var) bool {
 	if st == nil {
 		return false
 	}
-	for i := 0; i < st.NumFields(); i++ {
-		if st.Field(i) == f {
+	for _, sf := range flatFields(st, 0) {
+		if sf == f {
 			return true
 		}
 	}
@@ -270,13 +270,13 @@ func discover(repo *load.Repo) (*model, error) {
 	if ss == nil || sj == nil || jb == nil || cf == nil || structOf(m.State) == nil {
 		return nil, fmt.Errorf("Scheduler/ScheduledJob/Job/Config/State is not a struct")
 	}
-	for i := 0; i < ss.NumFields(); i++ {
-		if e := chanElem(ss.Field(i).Type()); e != nil {
+	for _, sf := range flatFields(ss, 0) {
+		if e := chanElem(sf.Type()); e != nil {
 			if n, ok := e.(*types.Named); ok {
 				if st := structOf(n); st != nil && len(fields(st, func(v *types.Var) bool { return isPtrTo(v.Type(), m.SJ) })) == 1 &&
 					len(fields(st, func(v *types.Var) bool { return isErrorType(v.Type()) })) == 1 {
 					m.JobResult = n
-					m.fDONE = ss.Field(i)
+					m.fDONE = sf
 				}
 			}
 		}
@@ -340,8 +340,8 @@ func discover(repo *load.Repo) (*model, error) {
 	})
 	if m.fENQ == nil {
 		// Enqueue delegates the send: the channel field of *ScheduledJob that the loop receives from and nobody else sends on
-		for i := 0; i < ss.NumFields(); i++ {
-			if f := ss.Field(i); isPtrTo(chanElemOr(f.Type()), m.SJ) && (f.Name() == "enqueuec" || m.fENQ == nil && f.Name() != "readyc") {
+		for _, f := range flatFields(ss, 0) {
+			if isPtrTo(chanElemOr(f.Type()), m.SJ) && (f.Name() == "enqueuec" || m.fENQ == nil && f.Name() != "readyc") {
 				m.fENQ = f
 			}
 		}
